@@ -12,6 +12,24 @@ var (
 	dTail = pspec{src: "d.tail", name: "d_tail", typ: "int64"}
 )
 
+var (
+	eW   = pspec{src: "e.w", name: "e_w", typ: "object:writer"}
+	eN   = pspec{src: "e.n", name: "e_n", typ: "int64"}
+	eErr = pspec{src: "e.err", name: "e_err", typ: "error"}
+)
+
+func encT(name string, res bool, ps ...pspec) codeTarget {
+	cfg := transCfg{res: res, params: ps,
+		libAlias: map[string]string{"endian.PutUint64": "encoding/binary.LittleEndian.PutUint64"},
+		calls: map[string]string{
+			"e.hasErr": "sniproxy|encoder|hasErr", "e.write": "sniproxy|encoder|write",
+			"e.u64": "sniproxy|encoder|u64", "e.bytes": "sniproxy|encoder|bytes"}}
+	if res {
+		cfg.stateOut = []string{"e.n", "e.err"}
+	}
+	return codeTarget{dir: "sniproxy", recv: "encoder", name: name, cfg: cfg}
+}
+
 func decT(name string, res bool, ps ...pspec) codeTarget {
 	cfg := transCfg{res: res, params: ps,
 		errLits:  map[string]bool{"tailError": true},
@@ -87,6 +105,14 @@ func init() {
 			decT("bytes", true, dR, dN, dErr, pspec{src: "buf", name: "buf", typ: "[]byte"}),
 			decT("str", true, dR, dN, dErr),
 			decT("end", true, dR, dErr, dTail),
+			// C13: the wire encoder over an abstract writer; n and err are state
+			encT("hasErr", false, eErr),
+			encT("Err", false, eErr),
+			encT("write", true, eW, eN, eErr, pspec{src: "bs", name: "bs", typ: "[]byte"}),
+			encT("u64", true, eW, eN, eErr, pspec{src: "v", name: "v", typ: "uint64"}),
+			encT("u8", true, eW, eN, eErr, pspec{src: "v", name: "v", typ: "uint8"}),
+			encT("bytes", true, eW, eN, eErr, pspec{src: "bs", name: "bs", typ: "[]byte"}),
+			encT("str", true, eW, eN, eErr, pspec{src: "s", name: "s", typ: "string"}),
 			// C14: the length of the second Peek of HelloInfo: the statements up to `recLen := ...`
 			{dir: "sniproxy", recv: "TLSHelloConn", name: "HelloInfo", cfg: transCfg{
 				coqName: "gen_sniproxy_HelloInfo_recLen", checked: true,
